@@ -2,6 +2,289 @@ import GcmpyModel.Model.LabelParse
 /-! Lemmas about the cover-label parser (`Model/LabelParse.lean`); property theorems in `Properties/C17Label.lean`. -/
 namespace Gcmpy.LabelParse
 namespace Lemmas
--- TO BE PROVED: topology_of_format, id_of_format, vertices_of_format, edges_of_format
+
+/-! ### digits -/
+
+theorem isDigit_of_mem_natRepr {n : Nat} {c : Char} (h : c ∈ natRepr n) : c.isDigit = true :=
+  Nat.isDigit_of_mem_toDigits (by decide) (by decide) h
+
+theorem natRepr_ne_nil (n : Nat) : natRepr n ≠ [] := Nat.toDigits_ne_nil
+
+theorem tokenize_cons_digit (c : Char) (cs : List Char) (acc : Option Nat) (h : c.isDigit = true) :
+    tokenize (c :: cs) acc = tokenize cs (some (10 * acc.getD 0 + digitVal c)) := by
+  cases acc <;> rw [tokenize] <;> simp [h]
+
+theorem tokenize_digits (ds rest : List Char) (a : Nat) (h : ∀ c ∈ ds, c.isDigit = true) :
+    tokenize (ds ++ rest) (some a) = tokenize rest (some (Nat.ofDigitChars 10 ds a)) := by
+  induction ds generalizing a with
+  | nil => simp
+  | cons c ds ih =>
+    rw [List.cons_append, tokenize_cons_digit _ _ _ (h c (by simp)),
+      ih _ (fun d hd => h d (by simp [hd])), Nat.ofDigitChars_cons]
+    rfl
+
+/-- a written number is read back as that number, whatever follows -/
+theorem tokenize_natRepr (n : Nat) (rest : List Char) :
+    tokenize (natRepr n ++ rest) none = tokenize rest (some n) := by
+  have hd : ∀ c ∈ natRepr n, c.isDigit = true := fun c hc => isDigit_of_mem_natRepr hc
+  have hv : Nat.ofDigitChars 10 (natRepr n) 0 = n := Nat.ofDigitChars_ten_toDigits
+  cases hr : natRepr n with
+  | nil => exact absurd hr (natRepr_ne_nil n)
+  | cons c ds =>
+    rw [hr] at hd hv
+    rw [List.cons_append, tokenize_cons_digit _ _ _ (hd c (by simp)),
+      tokenize_digits _ _ _ (fun d h => hd d (by simp [h]))]
+    rw [Nat.ofDigitChars_cons] at hv
+    have : 10 * (none : Option Nat).getD 0 + digitVal c = 10 * 0 + (c.toNat - '0'.toNat) := rfl
+    rw [this, hv]
+
+/-! ### symbols -/
+
+theorem tokenize_comma_some (n : Nat) (cs : List Char) :
+    tokenize (',' :: cs) (some n) = (tokenize cs none).map (fun ts => .num n :: .comma :: ts) := by
+  rw [tokenize]; simp [tokOf]
+
+theorem tokenize_rb_some (n : Nat) (cs : List Char) :
+    tokenize (']' :: cs) (some n) = (tokenize cs none).map (fun ts => .num n :: .rb :: ts) := by
+  rw [tokenize]; simp [tokOf]
+
+theorem tokenize_rp_some (n : Nat) (cs : List Char) :
+    tokenize (')' :: cs) (some n) = (tokenize cs none).map (fun ts => .num n :: .rp :: ts) := by
+  rw [tokenize]; simp [tokOf]
+
+theorem tokenize_comma_none (cs : List Char) :
+    tokenize (',' :: cs) none = (tokenize cs none).map (fun ts => .comma :: ts) := by
+  rw [tokenize]; simp [tokOf]
+
+theorem tokenize_rb_none (cs : List Char) :
+    tokenize (']' :: cs) none = (tokenize cs none).map (fun ts => .rb :: ts) := by
+  rw [tokenize]; simp [tokOf]
+
+theorem tokenize_lb_none (cs : List Char) :
+    tokenize ('[' :: cs) none = (tokenize cs none).map (fun ts => .lb :: ts) := by
+  rw [tokenize]; simp [tokOf]
+
+theorem tokenize_lp_none (cs : List Char) :
+    tokenize ('(' :: cs) none = (tokenize cs none).map (fun ts => .lp :: ts) := by
+  rw [tokenize]; simp [tokOf]
+
+theorem tokenize_space_none (cs : List Char) :
+    tokenize (' ' :: cs) none = tokenize cs none := by
+  rw [tokenize]; simp
+
+theorem tokenize_nil_none : tokenize [] none = some [] := by rw [tokenize]
+
+/-! ### tokens of a comma-separated sequence -/
+
+def sepToks : List (List Tok) → List Tok
+  | [] => []
+  | [x] => x
+  | x :: y :: r => x ++ .comma :: sepToks (y :: r)
+
+/-- the item `x` is read as the tokens `t` when a comma or the closing bracket follows -/
+def ItemOK (x : List Char) (t : List Tok) : Prop :=
+  (∀ rest, tokenize (x ++ ',' :: rest) none = (tokenize rest none).map (fun ts => t ++ .comma :: ts)) ∧
+  (∀ rest, tokenize (x ++ ']' :: rest) none = (tokenize rest none).map (fun ts => t ++ .rb :: ts))
+
+theorem tokenize_commaSep {α : Type} (f : α → List Char) (g : α → List Tok) (l : List α)
+    (h : ∀ a ∈ l, ItemOK (f a) (g a)) (rest : List Char) :
+    tokenize (commaSep (l.map f) ++ ']' :: rest) none
+      = (tokenize rest none).map (fun ts => sepToks (l.map g) ++ .rb :: ts) := by
+  induction l with
+  | nil => simp [commaSep, sepToks, tokenize_rb_none]
+  | cons a l ih =>
+    cases l with
+    | nil => simpa [commaSep, sepToks] using (h a (by simp)).2 rest
+    | cons b r =>
+      have ih' := ih (fun x hx => h x (by simp [hx]))
+      simp only [List.map_cons, commaSep, sepToks, List.append_assoc, List.cons_append,
+        List.nil_append] at ih' ⊢
+      rw [(h a (by simp)).1, tokenize_space_none, ih', Option.map_map]
+      congr 1
+
+theorem itemOK_nat (n : Nat) : ItemOK (natRepr n) [.num n] :=
+  ⟨fun rest => by rw [tokenize_natRepr, tokenize_comma_some]; rfl,
+   fun rest => by rw [tokenize_natRepr, tokenize_rb_some]; rfl⟩
+
+def edgeToks (e : Edge) : List Tok := [.lp, .num e.1, .comma, .num e.2, .rp]
+
+theorem tokenize_fmtEdge (e : Edge) (rest : List Char) :
+    tokenize (fmtEdge e ++ rest) none = (tokenize rest none).map (fun ts => edgeToks e ++ ts) := by
+  simp only [fmtEdge, List.append_assoc, List.cons_append, List.nil_append]
+  rw [tokenize_lp_none, tokenize_natRepr, tokenize_comma_some, tokenize_space_none, tokenize_natRepr,
+    tokenize_rp_some]
+  simp [Option.map_map, edgeToks, Function.comp_def]
+
+theorem itemOK_edge (e : Edge) : ItemOK (fmtEdge e) (edgeToks e) :=
+  ⟨fun rest => by rw [tokenize_fmtEdge, tokenize_comma_none, Option.map_map]; rfl,
+   fun rest => by rw [tokenize_fmtEdge, tokenize_rb_none, Option.map_map]; rfl⟩
+
+theorem tokenize_fmtNatList (ns : List Nat) :
+    tokenize (fmtNatList ns) none = some (.lb :: (sepToks (ns.map fun n => [.num n]) ++ [.rb])) := by
+  simp only [fmtNatList, List.cons_append, List.nil_append]
+  rw [tokenize_lb_none, tokenize_commaSep natRepr (fun n => [.num n]) ns (fun n _ => itemOK_nat n),
+    tokenize_nil_none]
+  rfl
+
+theorem tokenize_fmtEdgeList (es : List Edge) :
+    tokenize (fmtEdgeList es) none = some (.lb :: (sepToks (es.map edgeToks) ++ [.rb])) := by
+  simp only [fmtEdgeList, List.cons_append, List.nil_append]
+  rw [tokenize_lb_none, tokenize_commaSep fmtEdge edgeToks es (fun e _ => itemOK_edge e),
+    tokenize_nil_none]
+  rfl
+
+/-! ### parsing the tokens -/
+
+theorem natItems_sepToks (ns : List Nat) (rest : List Tok) :
+    natItems .rb (sepToks (ns.map fun n => [.num n]) ++ .rb :: rest) = some (ns, rest) := by
+  induction ns with
+  | nil => simp [sepToks, natItems]
+  | cons n ns ih =>
+    cases ns with
+    | nil => simp [sepToks, natItems]
+    | cons m r =>
+      simp only [List.map_cons, sepToks, List.cons_append, List.nil_append] at ih ⊢
+      rw [natItems]
+      simp [ih]
+
+theorem natSeq_edgeToks (e : Edge) (rest : List Tok) :
+    natSeq (edgeToks e ++ rest) = some ([e.1, e.2], rest) := by
+  simp [edgeToks, natSeq, natItems]
+
+theorem length_le_sepToks (es : List Edge) : es.length ≤ (sepToks (es.map edgeToks)).length := by
+  induction es with
+  | nil => simp
+  | cons e es ih =>
+    cases es with
+    | nil => simp [sepToks, edgeToks]
+    | cons e' r =>
+      simp only [List.map_cons, sepToks, List.length_append, List.length_cons] at ih ⊢
+      omega
+
+theorem edgeItems_step (e : Edge) (fuel : Nat) (X : List Tok) :
+    edgeItems .rb (fuel + 1) (edgeToks e ++ .comma :: X)
+      = (edgeItems .rb fuel X).map fun (es, r') => (e :: es, r') := by
+  have := natSeq_edgeToks e (.comma :: X)
+  simp only [edgeToks, List.cons_append, List.nil_append] at this ⊢
+  rw [edgeItems]
+  simp [this]
+
+theorem edgeItems_last (e : Edge) (fuel : Nat) (rest : List Tok) :
+    edgeItems .rb (fuel + 1) (edgeToks e ++ .rb :: rest) = some ([e], rest) := by
+  have := natSeq_edgeToks e (.rb :: rest)
+  simp only [edgeToks, List.cons_append, List.nil_append] at this ⊢
+  rw [edgeItems]
+  simp [this]
+
+theorem edgeItems_sepToks (es : List Edge) (rest : List Tok) (fuel : Nat) (hf : es.length < fuel) :
+    edgeItems .rb fuel (sepToks (es.map edgeToks) ++ .rb :: rest) = some (es, rest) := by
+  induction es generalizing fuel with
+  | nil =>
+    cases fuel with
+    | zero => omega
+    | succ fuel => simp [sepToks, edgeItems]
+  | cons e es ih =>
+    cases fuel with
+    | zero => omega
+    | succ fuel =>
+      cases es with
+      | nil =>
+        simp only [List.map_cons, List.map_nil, sepToks]
+        exact edgeItems_last e fuel rest
+      | cons e' r =>
+        have ih' := ih fuel (by simp at hf ⊢; omega)
+        simp only [List.map_cons, sepToks, List.append_assoc, List.cons_append] at ih' ⊢
+        rw [edgeItems_step, ih']
+        rfl
+
+theorem parseInt_natRepr (n : Nat) : parseInt (natRepr n) = some n := by
+  have := tokenize_natRepr n []
+  rw [List.append_nil] at this
+  simp [parseInt, this, tokenize]
+
+theorem parseNatList_fmt (ns : List Nat) : parseNatList (fmtNatList ns) = some ns := by
+  simp [parseNatList, tokenize_fmtNatList, natSeq, natItems_sepToks]
+
+theorem parseEdgeList_fmt (es : List Edge) : parseEdgeList (fmtEdgeList es) = some es := by
+  have hl := length_le_sepToks es
+  simp only [parseEdgeList, tokenize_fmtEdgeList, edgeSeq]
+  rw [edgeItems_sepToks es [] _ (by simp; omega)]
+
+/-! ### `split('-')` -/
+
+theorem splitOn_of_not_mem (sep : Char) (a : List Char) (h : sep ∉ a) : splitOn sep a = [a] := by
+  induction a with
+  | nil => simp [splitOn]
+  | cons c cs ih =>
+    have hc : c ≠ sep := fun e => h (by simp [e])
+    have := ih (fun hm => h (by simp [hm]))
+    simp [splitOn, hc, this]
+
+theorem splitOn_append (sep : Char) (a b : List Char) (h : sep ∉ a) :
+    splitOn sep (a ++ sep :: b) = a :: splitOn sep b := by
+  induction a with
+  | nil => simp [splitOn]
+  | cons c cs ih =>
+    have hc : c ≠ sep := fun e => h (by simp [e])
+    have := ih (fun hm => h (by simp [hm]))
+    simp [splitOn, hc, this]
+
+theorem dash_not_mem_natRepr (n : Nat) : '-' ∉ natRepr n := fun h => by
+  have := isDigit_of_mem_natRepr h
+  exact absurd this (by decide)
+
+theorem dash_not_mem_commaSep (xs : List (List Char)) (h : ∀ x ∈ xs, '-' ∉ x) : '-' ∉ commaSep xs := by
+  induction xs with
+  | nil => simp [commaSep]
+  | cons x xs ih =>
+    cases xs with
+    | nil => simpa [commaSep] using h x (by simp)
+    | cons y r =>
+      have h1 := h x (by simp)
+      have h2 := ih (fun z hz => h z (by simp [hz]))
+      simp only [commaSep, List.mem_append, not_or]
+      exact ⟨⟨h1, by decide⟩, h2⟩
+
+theorem dash_not_mem_fmtNatList (ns : List Nat) : '-' ∉ fmtNatList ns := by
+  have := dash_not_mem_commaSep (ns.map natRepr) (by
+    intro x hx; obtain ⟨n, _, rfl⟩ := List.mem_map.1 hx; exact dash_not_mem_natRepr n)
+  simp only [fmtNatList, List.mem_append, not_or]
+  exact ⟨⟨by decide, this⟩, by decide⟩
+
+theorem dash_not_mem_fmtEdge (e : Edge) : '-' ∉ fmtEdge e := by
+  simp only [fmtEdge, List.mem_append, not_or]
+  exact ⟨⟨⟨⟨by decide, dash_not_mem_natRepr _⟩, by decide⟩, dash_not_mem_natRepr _⟩, by decide⟩
+
+theorem dash_not_mem_fmtEdgeList (es : List Edge) : '-' ∉ fmtEdgeList es := by
+  have := dash_not_mem_commaSep (es.map fmtEdge) (by
+    intro x hx; obtain ⟨e, _, rfl⟩ := List.mem_map.1 hx; exact dash_not_mem_fmtEdge e)
+  simp only [fmtEdgeList, List.mem_append, not_or]
+  exact ⟨⟨by decide, this⟩, by decide⟩
+
+theorem splitOn_fmtLabel (key : Nat) (verts : List Nat) (edges : List Edge) (id : Nat) :
+    splitOn '-' (fmtLabel key verts edges id)
+      = [natRepr key, fmtNatList verts, fmtEdgeList edges, natRepr id] := by
+  simp only [fmtLabel, List.append_assoc, List.cons_append, List.nil_append]
+  rw [splitOn_append _ _ _ (dash_not_mem_natRepr key), splitOn_append _ _ _ (dash_not_mem_fmtNatList verts),
+    splitOn_append _ _ _ (dash_not_mem_fmtEdgeList edges), splitOn_of_not_mem _ _ (dash_not_mem_natRepr id)]
+
+/-! ### the four accessors -/
+
+theorem topology_of_format (key : Nat) (verts : List Nat) (edges : List Edge) (id : Nat) :
+    motifTopology (fmtLabel key verts edges id) = some key := by
+  simp [motifTopology, splitOn_fmtLabel, parseInt_natRepr]
+
+theorem id_of_format (key : Nat) (verts : List Nat) (edges : List Edge) (id : Nat) :
+    motifID (fmtLabel key verts edges id) = some id := by
+  simp [motifID, splitOn_fmtLabel, parseInt_natRepr]
+
+theorem vertices_of_format (key : Nat) (verts : List Nat) (edges : List Edge) (id : Nat) :
+    verticesInMotif (fmtLabel key verts edges id) = some verts := by
+  simp [verticesInMotif, splitOn_fmtLabel, parseNatList_fmt]
+
+theorem edges_of_format (key : Nat) (verts : List Nat) (edges : List Edge) (id : Nat) :
+    edgesInMotif (fmtLabel key verts edges id) = some edges := by
+  simp [edgesInMotif, splitOn_fmtLabel, parseEdgeList_fmt]
+
 end Lemmas
 end Gcmpy.LabelParse
